@@ -215,6 +215,11 @@ func buildCorpus(thorough bool) []corpusCase {
 				rn.o.Fail("message-encode-fails", k, "%v", err)
 				return
 			}
+			plain, _, _ := c.encSeg(network.NewMessage(network.CMDMPTData, d))
+			if prep := rn.bytesCase(k, c, plain); !strings.HasPrefix(prep.obs, "ok rest=0 ") {
+				rn.o.Fail("message0-roundtrip", k, "the uncompressed framing of a valid MPTData payload is rejected: %s", prep.obs)
+				continue
+			}
 			rep := rn.bytesCase(k, c, ab)
 			if !strings.HasPrefix(rep.obs, "ok rest=0 ") {
 				rn.o.Fail("message-lz4-roundtrip", k, "the node's own compressed framing of a valid MPTData payload (nodes: %d random bytes, 64 x ab) is rejected by Message.Decode: %s", 2100+16*pad, rep.obs)
